@@ -155,6 +155,54 @@ CLAIMED['C16'] = dict(
     technique="Lean 4 well-founded recursion (termination accepted by the kernel) + invariant theorems + bridge + real symlink trees",
     ref='§7 C16')
 
+UPD = ("Model: an executable Lean model of update_entries_for_directory (unregistered-Manifest scan, de-duplication with Python's "
+       "object identity and list.remove-by-equality semantics, the stack of governing Manifests, new Manifests with default IGNOREs, "
+       "typing and placement of new entries, removal pass) and of save_manifests (order, refresh of MANIFEST entries with the "
+       "before/after-write distinction, sorting in place, watermark rename/unlink). Tie: every byte of every Manifest the model "
+       "writes, the set of touched files and the error class are compared with the real run on generated prior states; hashes of "
+       "rewritten Manifests are supplied to the model from the real post-state. ")
+CLAIMED['C03'] = dict(
+    text=(UPD + "Theorems: an entry refreshed by update_entry_for_path is exact for the file - true size, exactly the requested hash "
+          "names, true digests (C03_refresh_exact over freshCks_spec) - and an exact entry verifies (C03_exact_verifies); "
+          "save_manifests visits deeper directories first (C03_save_children_first). PARTIAL: the statement over the whole "
+          "update+save (exactly-once coverage of every file, no entry for a missing file, every Manifest in use referenced exactly) "
+          "is decided by the on-disk oracle and the byte-exact correspondence, not by a theorem; it is false on the inputs of the "
+          "known findings F7, F8, F20, F21."),
+    note=TB + "Known findings F7 (equal duplicates in one Manifest), F8 (rename collision), F20 (FIFO named Manifest), F21 (MANIFEST entry below an IGNOREd directory) are reported as KNOWN-FINDING lines.",
+    technique="Lean 4 theorems on the entry refresh and save order + byte-exact model/implementation correspondence + on-disk exactness oracle",
+    ref='§7 C03')
+CLAIMED['C10'] = dict(
+    text=(UPD + "By the model's types only the write step of save_manifests produces file-system writes. Theorems: everything the "
+          "processing of one Manifest adds to the writes is that Manifest, its renamed form, or the unlink of the old name "
+          "(C10_saveOne_owned over C10_write_step_owned and refresh_fold_no_writes); list.remove removes exactly the first entry "
+          "object whose value equals the one looked for and leaves every other object and every value alone "
+          "(removeFirstEq_spec, C10_removal_hits_only_equal); an in-place refresh changes one object (C10_refresh_touches_one). "
+          "PARTIAL: preservation of DIST/IGNORE/TIMESTAMP entries, entry types and out-of-scope entries over a whole update is decided "
+          "by the correspondence and by snapshots around every operation (incl. updates failing part-way), not by a global theorem."),
+    note=TB + "'Nothing else on disk changes' is observed through content+mtime snapshots of the scratch tree.",
+    technique="Lean 4 theorems on the write step and the primitive edits + byte-exact correspondence + snapshots around operation sequences",
+    ref='§7 C10')
+CLAIMED['C12'] = dict(
+    text=(UPD + "Theorems: change detection is exact - a change is reported iff size or checksum dict differ from the fresh values, an "
+          "already exact entry queues nothing (C12_change_detection_exact, C12_exact_entry_unchanged); the writer's entry order is a "
+          "strict weak order (entryLt = lexicographic on (tag, path/ts), asymmetric, negatively transitive) and any two arrangements "
+          "of the same entries with pairwise distinct keys sort to the same list (C12_canonical over C12_sort_canonical, via "
+          "Perm.eq_of_pairwise). PARTIAL: 'a second update writes nothing' and byte-equality of whole Manifests across walk orders "
+          "are decided by the runs (two replicas, shuffled scandir and shuffled prior entries; bytes and st_mtime_ns)."),
+    note=TB + "Byte-determinism of gzip/bz2/lzma is exercised; the deterministic gzip header (no name, mtime 0) is a Bridge.FindTop fact.",
+    technique="Lean 4 theorems (exact change detection; sorted order canonical by permutation uniqueness) + two-replica runs",
+    ref='§7 C12')
+CLAIMED['C13'] = dict(
+    text=(UPD + "Theorems on the write step with a watermark: the stored form changes exactly when the policy's verdict differs from the "
+          "current suffix; then the Manifest is written under the new name, the old file unlinked, the rename recorded for the "
+          "parents (C13_watermark_step, C13_no_watermark_no_rename); the policy compresses iff uncompressed size >= watermark and "
+          "never a file literally named Manifest (C13_policy over C19); the size the policy sees is the UTF-8 byte length "
+          "(utf8Len). PARTIAL: independence of verification/lookup results from the storage format is decided by exhaustive "
+          "format assignments on small layouts, not by a theorem."),
+    note=TB + "Known finding F8 (rename onto another Manifest of the same directory).",
+    technique="Lean 4 theorems on the write/rename step + exhaustive format assignments + watermark boundary runs",
+    ref='§7 C13')
+
 PENDING = ['C01', 'C02', 'C03', 'C04', 'C05', 'C06', 'C07', 'C08', 'C10', 'C11', 'C12', 'C13', 'C14', 'C15', 'C16',
            'C17', 'C18', 'C19', 'C20']
 
